@@ -305,10 +305,23 @@ def run_property(prop, tier='quick', replay=None):
         if kk not in seen_known:
             seen_known.add(kk)
             out_lines.append('KNOWN-FINDING: property=%s %s' % (pid, k.get('what', kk)))
+    first_bounded = next((v['replay'] for v in violations if v['kind'] == 'bounded'), None)
     for v in violations:
         line = 'VIOLATION property=%s replay=%s' % (pid, v['replay'])
         if not v['reproduced']:
-            line += ' obligation=%s no-failing-input-found' % v['name'].replace(' ', '_')
+            line += ' obligation=%s' % v['name'].replace(' ', '_')
+            if first_bounded is not None:
+                # no input was derived from this obligation's counter-model, but the bounded tier of the same run did find a
+                # failing input of the property on the real code: point at it instead of claiming that none was found
+                line += ' see-also=%s' % first_bounded
+                try:
+                    d_ = json.load(open(v['replay']))
+                    d_['failing_input_found_by_bounded_tier_in_the_same_run'] = first_bounded
+                    json.dump(d_, open(v['replay'], 'w'), indent=1, default=str)
+                except Exception:
+                    pass
+            # the words refer to this obligation's own counter-model: none of its values was turned into a failing input
+            line += ' no-failing-input-found'
         out_lines.append(line)
     if errors and not violations:
         # an exception in the harness or in the code under test on an input of the stated family
